@@ -1,8 +1,219 @@
 import GB.Base.Proto
+import GB.C07.Spec
+import GB.C19.Model
+/-
+  C07 driver.  Line formats (byte strings hex `x…`; `l:` list = hex items joined by `,`;
+  `m:` MD = entries `xKEY:xV1,xV2` joined by `;`, sorted by key by whoever prints it;
+  `p:` pairs = `xK=xV` joined by `;`, order significant):
+
+    bin  x<v>                                             => none | some:x<bytes>
+    filt req|resp|trl  <OPTS> m:<md>                      => m:<out>
+    fwd  <OPTS> m:<ctx md> m:<target hdr> m:<target trl> unary|stream
+                                                          => out=m:… dl=none|<sec> hdr=m:… trl=m:…|unset
+    e2e  <entry> <OPTS> m:<sent hdr> p:<query md | lines> m:<target hdr> m:<target trl> unary|stream
+                                                          => fwd=0 | fwd=1 seen=m:… out=m:… dl=… ch=m:… ct=m:…
+  <OPTS> = l:<allowReq> x<prefixReq> l:<allowResp> x<prefixResp> l:<allowTrl> x<prefixTrl>
+-/
 namespace GB.C07
 open GB GB.Proto
 
-/-- stub: replaced when the C07 slice is built -/
-def handle : Handler := fun _ _ => "BAD c07 unimplemented"
+/-! parsing / printing -/
+
+def dropPrefix? (s p : String) : Option String :=
+  if s.startsWith p then some (s.drop p.length).toString else none
+
+def parseHexList (s : String) : Option (List Bytes) :=
+  if s.isEmpty then some [] else (s.splitOn ",").mapM parseHex
+
+def parseL (s : String) : Option (List Bytes) := (dropPrefix? s "l:").bind parseHexList
+
+def parseEntry (s : String) : Option (Bytes × List Bytes) :=
+  match s.splitOn ":" with
+  | [k, vs] => do let k ← parseHex k; let vs ← parseHexList vs; pure (k, vs)
+  | _ => none
+
+def parseM (s : String) : Option MD :=
+  (dropPrefix? s "m:").bind fun b => if b.isEmpty then some [] else (b.splitOn ";").mapM parseEntry
+
+def parsePair (s : String) : Option (Bytes × Bytes) :=
+  match s.splitOn "=" with
+  | [k, v] => do let k ← parseHex k; let v ← parseHex v; pure (k, v)
+  | _ => none
+
+def parseP (s : String) : Option (List (Bytes × Bytes)) :=
+  (dropPrefix? s "p:").bind fun b => if b.isEmpty then some [] else (b.splitOn ";").mapM parsePair
+
+def bytesLt : Bytes → Bytes → Bool
+  | [], [] => false
+  | [], _ :: _ => true
+  | _ :: _, [] => false
+  | a :: as, b :: bs => if a < b then true else if b < a then false else bytesLt as bs
+
+def insertSorted (e : Bytes × List Bytes) : MD → MD
+  | [] => [e]
+  | x :: xs => if bytesLt e.1 x.1 then e :: x :: xs else x :: insertSorted e xs
+
+def sortMD (md : MD) : MD := md.foldl (fun acc e => insertSorted e acc) []
+
+def showMD (md : MD) : String :=
+  "m:" ++ ";".intercalate ((sortMD md).map fun e => toHex e.1 ++ ":" ++ ",".intercalate (e.2.map toHex))
+
+def parseOpts : List String → Option (Opts × List String)
+  | a :: b :: c :: d :: e :: f :: rest => do
+    let ar ← parseL a; let pr ← parseHex b
+    let as ← parseL c; let ps ← parseHex d
+    let at' ← parseL e; let pt ← parseHex f
+    pure ({ allowReq := ar, prefixReq := pr, allowResp := as, prefixResp := ps, allowTrl := at', prefixTrl := pt }, rest)
+  | _ => none
+
+def parseEntryName : String → Option Entry
+  | "http" => some .http | "ws" => some .ws | "grpcweb" => some .grpcweb
+  | "grpcws" => some .grpcws | "proxy" => some .proxy | _ => none
+
+def field (outs : List String) (name : String) : Option String :=
+  outs.findSome? (fun s => dropPrefix? s (name ++ "="))
+
+/-- rounded seconds of a nanosecond duration, as the harness reports the remaining deadline -/
+def showDeadline : Option Int → String
+  | none => "none"
+  | some d => toString ((d + 500000000) / 1000000000)
+
+/-! bridge-owned response headers (never derived from target metadata) -/
+def ctKey : Bytes := ascii "Content-Type"
+def ownCT : List Bytes := [ascii "application/json", ascii "application/grpc-web+proto", ascii "text/plain; charset=utf-8"]
+def own (K v : Bytes) : Bool := K == ctKey && ownCT.contains v
+
+def isOpt (o : Opts) : String :=
+  if o.allowReq.isEmpty && o.allowResp.isEmpty && o.allowTrl.isEmpty then "deny" else "cfg"
+
+/-- request-direction verdict shared by fwd / e2e: `out` vs the model and the spec -/
+def judgeReq (wire : Bool) (o : Opts) (its : List (Bytes × Bytes)) (mOut : MD) (mDl : Option Int)
+    (out : MD) (dl : String) : Option String :=
+  if out.any (fun e => e.1 == timeoutKey) then some "VIOL grpc-timeout forwarded as metadata"
+  else if !wire && !(reqSpec false o its out) && reqSpec true o its out && sortMD out == sortMD mOut then
+    some "VIOL D13 binary metadata already decoded by grpc-go was base64-decoded a second time on the gRPC proxy entry"
+  else if !(reqSpec wire o its out) then some s!"VIOL target received metadata not licensed by the request allow-list model={showMD mOut}"
+  else if sortMD out != sortMD mOut then some s!"DIFF model=out:{showMD mOut}"
+  else if dl != showDeadline mDl then
+    (if mDl.isSome && dl == "none" then some s!"VIOL grpc-timeout not consumed as a deadline model={showDeadline mDl}"
+     else some s!"DIFF model=dl:{showDeadline mDl}")
+  else none
+
+def dropKeys (ks : List Bytes) (md : MD) : MD := md.filter (fun e => !ks.contains e.1)
+def infra : List Bytes := [ascii "Date", ascii "Content-Length"]
+
+def handle : Handler
+  | ["bin", hx], [out] =>
+    match parseHex hx with
+    | none => "BAD hex"
+    | some v =>
+      let m := match decodeBinHeader v with | none => "none" | some b => "some:" ++ toHex b
+      if out == m then
+        let nt := if (decodeBinHeader v).isSome && !v.isEmpty then " nt" else ""
+        s!"OK{nt} b=bin-{if v.length % 4 == 0 then "std" else "raw"}-{if (decodeBinHeader v).isSome then "ok" else "err"}"
+      else s!"DIFF model={m}"
+  | "filt" :: which :: rest, [outS] =>
+    match parseOpts rest with
+    | some (o, [mdS]) =>
+      match parseM mdS, parseM outS with
+      | some md, some out =>
+        let (m, ok) : MD × Bool := match which with
+          | "req" =>
+            (filterRequestMD o md,
+             out.all (fun e => (e.1 == timeoutKey && e.2 == md.get timeoutKey) || entryOK true o (flatten md) e))
+          | "resp" => (filterResponseMD o md, respSpec o.allowResp o.prefixResp md out)
+          | _ => (filterTrailerMD o md, respSpec o.allowTrl o.prefixTrl md out)
+        if which != "req" && which != "resp" && which != "trl" then "BAD which"
+        else if !ok then s!"VIOL filter {which} let through metadata that is not allow-listed model={showMD m}"
+        else if sortMD out != sortMD m then s!"DIFF model={showMD m}"
+        else s!"OK{if m.isEmpty then "" else " nt"} b=filt-{which}-{isOpt o}-{if m.isEmpty then "empty" else "some"}"
+      | _, _ => "BAD md"
+    | _ => "BAD filt line"
+  | "fwd" :: rest, outs =>
+    match parseOpts rest with
+    | some (o, [cS, hS, tS, mode]) =>
+      match parseM cS, parseM hS, parseM tS, field outs "out", field outs "dl", field outs "hdr", field outs "trl" with
+      | some c, some h, some t, some outS, some dl, some ohS, some otS =>
+        match parseM outS, parseM ohS with
+        | some out, some oh =>
+          let (mOut, mDl) := forwardRequest o c
+          match judgeReq true o (flatten c) mOut mDl out dl with
+          | some v => v
+          | none =>
+            let mh := filterResponseMD o h
+            let mt := filterTrailerMD o t
+            if !(respSpec o.allowResp o.prefixResp h oh) then s!"VIOL SetHeader got metadata not on the response allow-list model={showMD mh}"
+            else if sortMD oh != sortMD mh then s!"DIFF model=hdr:{showMD mh}"
+            else match (if otS == "unset" then some none else (parseM otS).map some) with
+              | none => "BAD trl"
+              | some none => s!"DIFF model=trl:{showMD mt}"
+              | some (some ot) =>
+                if !(respSpec o.allowTrl o.prefixTrl t ot) then s!"VIOL SetTrailer got metadata not on the trailer allow-list model={showMD mt}"
+                else if sortMD ot != sortMD mt then s!"DIFF model=trl:{showMD mt}"
+                else
+                  let nt := if mOut.isEmpty && mh.isEmpty && mt.isEmpty && mDl.isNone then "" else " nt"
+                  s!"OK{nt} b=fwd-{mode}-{isOpt o}-{if mDl.isSome then "dl" else "nodl"}"
+        | _, _ => "BAD fwd out md"
+      | _, _, _, _, _, _, _ => "BAD fwd fields"
+    | _ => "BAD fwd line"
+  | "e2e" :: en :: rest, outs =>
+    match parseEntryName en, parseOpts rest with
+    | some e, some (o, [sS, pS, hS, tS, mode]) =>
+      match parseM sS, parseP pS, parseM hS, parseM tS with
+      | some _sent, some ps, some h, some t =>
+        if field outs "fwd" == some "0" then s!"OK b=e2e-{en}-notforwarded"
+        else
+        match field outs "seen", field outs "out", field outs "dl", field outs "ch", field outs "ct" with
+        | some seenS, some outS, some dl, some chS, some ctS =>
+          match parseM seenS, parseM outS, parseM chS, parseM ctS with
+          | some seen, some out, some ch, some ct =>
+            let qmd := ps.filter (fun p => GB.C19.isValidMetadataKey p.1 && GB.C19.isValidMetadataValue p.2)
+            let r : Request := match e with
+              | .grpcws => { lines := ps }
+              | .ws => { hdr := seen, qmd := qmd }
+              | _ => { hdr := seen }
+            let mOut := targetMD e o r
+            -- proxy: grpc-go itself turns the client's grpc-timeout into the deadline of the incoming context;
+            -- a timeout the allow-list renames onto grpc-timeout is applied on top (context.WithTimeout: the earlier wins)
+            let mDl := match e with
+              | .proxy =>
+                let c := (match MD.get _sent timeoutKey with | v0 :: _ => GB.C12.decodeTimeout v0 | [] => none)
+                (match c, targetDeadline e o r with
+                 | some a, some b => some (if b < a then b else a)
+                 | some a, none => some a
+                 | none, b => b)
+              | _ => targetDeadline e o r
+            match judgeReq e.wire o (items e r) mOut mDl out dl with
+            | some v => v
+            | none =>
+              let unary := mode == "unary"
+              let (mh0, mt) := clientVisible e o unary h t
+              -- bridge-owned headers around the target-derived ones
+              let mh : MD := match e with
+                | .http => MD.put mh0 ctKey [ascii "application/json"]
+                | .grpcweb => appendHeaders [(ctKey, [ascii "application/grpc-web+proto"])] (filterResponseMD o h)
+                | _ => mh0
+              let ch' := dropKeys infra ch
+              let mh' := dropKeys infra mh
+              let specH : Bool := match e with
+                | .http | .grpcweb => httpSpec o h t own ch'
+                | .ws => ch'.isEmpty
+                | _ => respSpec o.allowResp o.prefixResp h ch'
+              let specT : Bool := match e with
+                | .http => httpSpec o [] t (fun _ _ => false) ct
+                | .ws => ct.isEmpty
+                | _ => respSpec o.allowTrl o.prefixTrl t ct
+              if !specH then s!"VIOL client saw response headers not on the response allow-list model={showMD mh'}"
+              else if !specT then s!"VIOL client saw trailers not on the trailer allow-list model={showMD mt}"
+              else if sortMD ch' != sortMD mh' then s!"DIFF model=ch:{showMD mh'}"
+              else if sortMD ct != sortMD mt then s!"DIFF model=ct:{showMD mt}"
+              else
+                let nt := if mOut.isEmpty && mt.isEmpty && (filterResponseMD o h).isEmpty && mDl.isNone then "" else " nt"
+                s!"OK{nt} b=e2e-{en}-{mode}-{isOpt o}-{if mDl.isSome then "dl" else "nodl"}"
+          | _, _, _, _ => "BAD e2e out md"
+        | _, _, _, _, _ => "BAD e2e fields"
+      | _, _, _, _ => "BAD e2e md"
+    | _, _ => "BAD e2e line"
+  | _, _ => "BAD c07 line"
 
 end GB.C07
